@@ -159,7 +159,7 @@ fn mem_violation(it: &MemItem, requested: u128, total_in: usize, how: &str) -> V
         ),
         it.witness(),
     )
-    .cost(it.declared.min(u64::MAX / 2) / 1024 + it.supplied)
+    .cost(((it.declared.min(1 << 40) / 1024 + it.supplied) << 8) | ((it.stream as u64) << 4) | it.width as u64)
 }
 
 fn mem_eval(it: &MemItem) -> ItemOut {
@@ -291,7 +291,8 @@ const QUICK_SMALL: [&str; 12] = [
 ];
 
 /// Feed `bytes` in the chunks delimited by `cuts` into a fresh inbox; compare with `expect`.
-fn chunk_run(corpus: &[Entry], seq: &[usize], bytes: &[u8], cuts: &[usize]) -> Result<(), (String, String)> {
+/// On failure: (oracle clause, index in `seq` of the first frame that went wrong, description).
+fn chunk_run(corpus: &[Entry], seq: &[usize], bytes: &[u8], cuts: &[usize]) -> Result<(), (String, usize, String)> {
     let mut de = Inbox::new(64);
     let mut out: Vec<F> = Vec::with_capacity(seq.len());
     let mut from = 0usize;
@@ -299,22 +300,23 @@ fn chunk_run(corpus: &[Entry], seq: &[usize], bytes: &[u8], cuts: &[usize]) -> R
         let end = feed(&mut de, &bytes[from..to], &mut out);
         from = to;
         if end != End::Incomplete {
-            return Err(("error-on-valid-stream".into(), format!("after {} of {} bytes the inbox answered {} (frames so far: {})", to, bytes.len(), end.label(), out.len())));
+            return Err(("error-on-valid-stream".into(), out.len(), format!("after {} of {} bytes the inbox answered {} (frames so far: {})", to, bytes.len(), end.label(), out.len())));
         }
     }
     if out.len() != seq.len() {
         return Err((
             if out.len() < seq.len() { "frames-missing".into() } else { "frames-surplus".into() },
+            out.len(),
             format!("{} frame(s) came out of a stream of {} ({} bytes left in the inbox)", out.len(), seq.len(), de.len()),
         ));
     }
     for (k, f) in out.iter().enumerate() {
         if *f != corpus[seq[k]].frame {
-            return Err(("frame-differs".into(), format!("frame #{k} came out as {f:?}, sent {:?}", corpus[seq[k]].frame)));
+            return Err(("frame-differs".into(), k, format!("frame #{k} came out as {f:?}, sent {:?}", corpus[seq[k]].frame)));
         }
     }
     if !de.is_empty() {
-        return Err(("residue".into(), format!("{} bytes left in the inbox after all frames came out", de.len())));
+        return Err(("residue".into(), seq.len(), format!("{} bytes left in the inbox after all frames came out", de.len())));
     }
     Ok(())
 }
@@ -323,14 +325,18 @@ fn chunk_witness(corpus: &[Entry], seq: &[usize], cuts: &[usize]) -> Value {
     json!({"family": "chunking", "frames": seq.iter().map(|k| corpus[*k].name.clone()).collect::<Vec<_>>(), "cuts": cuts})
 }
 
-fn chunk_violation(corpus: &[Entry], seq: &[usize], cuts: &[usize], clause: &str, what: &str) -> Violation {
-    let kinds: String = seq.iter().map(|k| corpus[*k].kind).collect();
+fn chunk_violation(corpus: &[Entry], seq: &[usize], cuts: &[usize], clause: &str, at: usize, what: &str) -> Violation {
+    let kind = match corpus[seq[at.min(seq.len() - 1)]].kind {
+        'c' => "control",
+        'g' => "gossip",
+        _ => "git",
+    };
     Violation::new(
-        format!("C14/chunking/{clause}/{}", kinds),
+        format!("C14/chunking/{clause}/{kind}-frame"),
         format!("frames {:?} fed with cuts at {:?}: {what}", seq.iter().map(|k| corpus[*k].name.as_str()).collect::<Vec<_>>(), cuts),
         chunk_witness(corpus, seq, cuts),
     )
-    .cost(seq.iter().map(|k| corpus[*k].bytes.len() as u64).sum::<u64>())
+    .cost((seq.iter().map(|k| corpus[*k].bytes.len() as u64).sum::<u64>() << 24) | (mcx::fnv64(format!("{seq:?}{cuts:?}").as_bytes()) & 0xff_ffff))
 }
 
 fn chunk_eval(sp: &ChunkSpace, i: u64) -> ItemOut {
@@ -341,11 +347,11 @@ fn chunk_eval(sp: &ChunkSpace, i: u64) -> ItemOut {
     let mut bad = 0u64;
     let mut check = |cuts: &[usize], vs: &mut Vec<Violation>| {
         feeds += 1;
-        if let Err((clause, what)) = chunk_run(sp.corpus, &seq, &bytes, cuts) {
+        if let Err((clause, at, what)) = chunk_run(sp.corpus, &seq, &bytes, cuts) {
             bad += 1;
             // keep the first few per item; all are counted
             if vs.len() < 4 {
-                vs.push(chunk_violation(sp.corpus, &seq, cuts, &clause, &what));
+                vs.push(chunk_violation(sp.corpus, &seq, cuts, &clause, at, &what));
             }
         }
     };
@@ -536,10 +542,13 @@ fn replay(w: &Value) -> Vec<Violation> {
         Some("chunking") => {
             let seq: Vec<usize> = w.get("frames").and_then(Value::as_array).map(|a| a.iter().filter_map(Value::as_str).map(by_name).collect()).unwrap_or_default();
             let cuts: Vec<usize> = w.get("cuts").and_then(Value::as_array).map(|a| a.iter().filter_map(Value::as_u64).map(|x| x as usize).collect()).unwrap_or_default();
+            if seq.is_empty() {
+                mcx::report::machinery("chunking witness names no frames");
+            }
             let bytes: Vec<u8> = seq.iter().flat_map(|k| corpus[*k].bytes.iter().copied()).collect();
             match mcx::panics::catch(|| chunk_run(&corpus, &seq, &bytes, &cuts)) {
                 Ok(Ok(())) => vec![],
-                Ok(Err((clause, what))) => vec![chunk_violation(&corpus, &seq, &cuts, &clause, &what)],
+                Ok(Err((clause, at, what))) => vec![chunk_violation(&corpus, &seq, &cuts, &clause, at, &what)],
                 Err(c) => vec![Violation::new(format!("C14/panic/{}", c.site()), format!("decoder panicked at {}:{} ({})", c.file, c.line, c.message), w.clone())],
             }
         }
